@@ -62,8 +62,13 @@ def run(ctx):
             outs = drv.ask(["%s %d %s" % (encop, first, ",".join("%d:%d" % p for p in m)) for first, m, _ in cases])
             for (first, m, aimed), mo in zip(cases, outs):
                 clen = m[-1][0] + 2
-                r = w.r("freeze_lnotab", version=list(v), first=first, code_len=clen, mapping=[list(p) for p in m])
+                # one case in three is supplied to an object that has been through freeze() before
+                mode = [None, None, "inplace", "replace"][rng.randrange(4)]
+                r = w.r("freeze_lnotab", version=list(v), first=first, code_len=clen, mapping=[list(p) for p in m], refreeze=mode)
                 inp = {"version": list(v), "first": first, "mapping": m}
+                if mode:
+                    inp["history"] = "object frozen once with {0: first}, then the mapping given %s, then freeze()" % (
+                        "by replace()" if mode == "replace" else "by attribute assignment")
                 rep.count(1, (v, first, tuple(m)))
                 want = fmt(dedup(m))
                 if "tab" not in r:
